@@ -334,6 +334,19 @@ Definition pred_c05 (g : ghost) (w : world) (a : action) (O : oracle) (w' : worl
               end
           | None => if others_unchanged w i None [151; 152; 154] then [] else [1055]
           end
+      | RRecoverStart =>
+          (* 'only within the configured validity period': whenever this request gives an account a new recovery
+             selector, the stored deadline is this request's time plus the configured duration - whatever deadline
+             an earlier, still outstanding request had left there *)
+          flat_map (fun p =>
+            match user_of w p, iuser_of i p with
+            | Some u, Some u' =>
+                if negb (beqb (u_rsel u) (u_rsel u')) && negb (bempty (u_rsel u')) then
+                  (* (ten seconds of slack: the library reads its own clock somewhere inside the request) *)
+                  (if Z.abs (u_rexp u' - (o_now O + c_recover_dur cfg)) <=? 10 then [] else [1057])
+                else []
+            | _, _ => []
+            end) (all_pids w i)
       | _ => []
       end
   | _ => []
@@ -369,7 +382,10 @@ Definition pred_c06 (g : ghost) (w : world) (a : action) (O : oracle) (w' : worl
                   (if beqb (u_password u') (px (aget f_password (values_of r))) then [] else [1063]) ++
                   (if (length (aget f_password (values_of r)) <=? 72)%nat then [] else [1068]) ++
                   (if bempty (u_rsel u') && bempty (u_rver u') then [] else [1064]) ++
-                  (if has_mod cfg MRemember then match rm_of_i i p with [] => [] | _ => [1065] end else []) ++
+                  (* (a backend failure in the revocation call itself ends the request as an error with the new
+                     password saved - the non-transactional boundary DESIGN 0.4 states; a request that REPORTS the
+                     change as done has revoked the tokens) *)
+                  (if has_mod cfg MRemember && negb ((io_status i =? 0) || (io_status i =? 500)) then match rm_of_i i p with [] => [] | _ => [1065] end else []) ++
                   (if others_unchanged w i (Some p) [151] && rm_others_unchanged w i p then [] else [1066])
               | None => [1063]
               end
